@@ -141,6 +141,75 @@ class Solve(Harness):
             S.prove(f"emitter-disentangled-in-ket0[{e}]", sim.contains(O.Row.single(n_p + n_e, n_p + e, "Z")))
 
 
+class SolveDm(Harness):
+    """the circuit returned by the solver, compiled by the DENSITY-MATRIX backend from |0..0> (numerically concrete per
+    path; the outcome vector is forked, impossible outcomes pruned by the contract p[outcome] > 0): the photons end in
+    |G><G| and every emitter in |0><0| for every reachable outcome vector.  Auxiliary / enumerative in graphs and
+    outcomes; the symbolic per-operation argument for the DM backend is C01's DmCompileOne."""
+
+    weight = 60
+
+    def install(self):
+        super().install()
+        from symnp import stubs, install as sinstall
+        stubs.install_nx()
+        sinstall.install_dm_state()
+
+    def input_space(self):
+        return self.n * (self.n - 1) // 2
+
+    def declare(self, S):
+        return declare_graph(S, self.n)
+
+    def body(self, S, spec):
+        from graphiq.backends.stabilizer.compiler import StabilizerCompiler
+        from graphiq.backends.density_matrix.compiler import DensityMatrixCompiler
+        from graphiq.backends.stabilizer.tableau import StabilizerTableau
+        from graphiq.backends.stabilizer.clifford_tableau import CliffordTableau
+        from graphiq.metrics import Infidelity
+        from graphiq.solvers.time_reversed_solver import TimeReversedSolver
+        from graphiq.state import QuantumState
+
+        n = self.n
+        adj = spec["adj"].copy()
+        if S.symbolic:
+            from symnp.arr import sym_eye
+            from symnp.stubs import concretize_matrix
+            a = concretize_matrix(adj)  # fork on every edge: the DM run is concrete numerics
+            x = np.eye(n, dtype=int)
+        else:
+            a = np.asarray(adj)
+            x = np.eye(n, dtype=int)
+        deg = a.sum(axis=0)
+        if (deg == 0).any():
+            S.prove("skipped-isolated-vertex (known finding F2 of the stabilizer-typed harness)", True)
+            return
+        target = QuantumState(CliffordTableau(StabilizerTableau([x, a])), rep_type="s")
+        comp = StabilizerCompiler()
+        comp.measurement_determinism = 1
+        solver = TimeReversedSolver(target=target, metric=Infidelity(target), compiler=comp)
+        solver.solve()
+        _, circuit = solver.result
+        dmc = DensityMatrixCompiler()
+        dmc.measurement_determinism = self.det
+        state = dmc.compile(circuit)
+        rho = np.asarray(state.rep_data.data, dtype=complex)
+        n_p, n_e = circuit.n_photons, circuit.n_emitters
+        # dense target: prod CZ |+>^n  (x) |0..0>
+        psi = np.ones(2 ** n, dtype=complex) / np.sqrt(2 ** n)
+        for i in range(n):
+            for j in range(i + 1, n):
+                if a[i, j]:
+                    for idx in range(2 ** n):
+                        if (idx >> (n - 1 - i)) & 1 and (idx >> (n - 1 - j)) & 1:
+                            psi[idx] = -psi[idx]
+        e0 = np.zeros(2 ** n_e, dtype=complex)
+        e0[0] = 1
+        full = np.kron(psi, e0)
+        want = np.outer(full, full.conj())
+        S.prove("dm-backend-final-state-is-|G><G|(x)|0..0><0..0|", bool(np.allclose(rho, want, atol=1e-9)))
+
+
 def plan(tier):
     q = tier == "quick"
     jobs = []
@@ -148,6 +217,9 @@ def plan(tier):
         jobs.append((Solve(n=n, target_type="stabilizer", det="probabilistic"), {}))
     for n in ([2, 3] if q else [2, 3, 4]):
         jobs.append((Solve(n=n, target_type="graph", det=1), {}))
+    for n in ([2, 3] if q else [2, 3, 4]):
+        for det in ((0, "probabilistic") if q else (0, 1, "probabilistic")):
+            jobs.append((SolveDm(n=n, det=det), {}))
     if q:
         h = Solve(n=4, target_type="stabilizer", det=1)
         h.parallel = True
